@@ -736,3 +736,63 @@ Definition hyps (root : N -> ent_kind) (p : process) (names : list expr) : Prop 
   in_family root p = true /\ calls_resolved root p = true /\ wf_pos root p = true /\
   listed_signals root names = true.
 
+
+(* ------------------------------------------------------------------------------------------ *)
+(* unit level: `analyze_unit` = every process the Search traversal reaches in a design unit     *)
+(* ------------------------------------------------------------------------------------------ *)
+(* concurrent statements: a process (plain, labelled, postponed: the same ProcessStatement), a block, a
+   generate statement (for / if / case: its bodies), anything else *)
+Inductive conc : Type :=
+| CProcess (p : process)
+| CBlock (body : list conc)
+| CGenerate (bodies : list (list conc))
+| COther.
+Inductive unit_kind := UEntity | UArchitecture | UPackage | UPackageBody | UConfiguration | UContext.
+(* a design unit with its statement part: entity declarations (passive processes) and architecture bodies have
+   one; `ProcessSearcher` is run on EVERY unit (a package body is pruned: it has no statement part) *)
+Record dunit := mkUnit { u_kind : unit_kind; u_stmts : list conc }.
+
+Fixpoint procs_conc (c : conc) : list process :=
+  match c with
+  | CProcess p => [p]
+  | CBlock body => flat_map procs_conc body
+  | CGenerate bodies => flat_map (flat_map procs_conc) bodies
+  | COther => []
+  end.
+Definition procs_of (u : dunit) : list process := flat_map procs_conc (u_stmts u).
+
+(* diagnostics.append(lint_sensitivity_list(..)) for every process found; None = panic *)
+Fixpoint lint_all (root : N -> ent_kind) (ps : list process) : option (list diag) :=
+  match ps with
+  | [] => Some []
+  | p :: r => match lint_model root p, lint_all root r with
+              | Some a, Some b => Some (a ++ b)
+              | _, _ => None
+              end
+  end.
+Definition analyze_unit (root : N -> ent_kind) (u : dunit) : option (list diag) := lint_all root (procs_of u).
+(* seeded variant: only architecture bodies are searched *)
+Definition analyze_unit_arch_only (root : N -> ent_kind) (u : dunit) : option (list diag) :=
+  match u_kind u with UArchitecture => lint_all root (procs_of u) | _ => Some [] end.
+
+(* what the statement says about one process, and when it says it *)
+Definition expected (root : N -> ent_kind) (p : process) : list diag :=
+  match p_sens p with
+  | Some (SensNames names) =>
+      match get_likely_process_category root p with
+      | Some Combinational => spec_diags root p names
+      | _ => []
+      end
+  | _ => []
+  end.
+Definition covered (root : N -> ent_kind) (p : process) : Prop :=
+  match p_sens p with
+  | Some (SensNames names) =>
+      get_likely_process_category root p = Some Sequential \/
+      (get_likely_process_category root p = Some Combinational /\ in_family root p = true /\
+       calls_resolved root p = true /\ wf_pos root p = true /\ listed_signals root names = true)
+  | _ => True
+  end.
+
+(* witness: the passive process of f_outport in the statement part of an ENTITY, inside a block in a generate *)
+Definition u_entity : dunit := mkUnit UEntity [COther; CGenerate [[CBlock [CProcess f_outport]]; []]].
